@@ -12,15 +12,16 @@ func init() {
 	register(&Prop{
 		ID:        "C02",
 		Level:     "other",
-		Technique: "who-may-call table of failAllRecords with three-valued evaluation of each caller's guard (may not fail a batch whose outcome is unknown), who-may-write tables with stored-value classes for the idempotency flags and sequence fields, dominance rules for the epoch re-check, the in-flight gate, the ordered response worker and batch freezing",
+		Technique: "who-may-call table of failAllRecords with three-valued evaluation of each caller's guard (may not fail a batch whose outcome is unknown), who-may-write tables with stored-value classes for the idempotency flags and sequence fields, dominance rules for the epoch re-check, the in-flight gate, the ordered response worker and batch freezing, paired-store rule (same block / dominance + must-pass) tying every write of the drain index to the matching sequence write",
 		Explanation: "(1) recBuf.seq / batch0Seq are written only through incrementSequence, the constant 0 (sequence reset) or a copy of the sibling field; " +
 			"(2) fail-only-when-safe: every caller of recBuf.failAllRecords is in the confirmed table (definitive broker error, terminal purge/close/fatal paths, or guarded); for guarded callers the conjunction of conditions controlling the call (through local flags) evaluates to false when the batch is unsureIfProduced, and to false when it is in flight (canFailFromLoadErrs == false), unless idempotency is disabled or AllowIdempotentProduceCancellation is set; handleRetryBatches receives canFail=true only from the per-batch response path; " +
 			"(3) flag monotonicity: canFailFromLoadErrs is stored false only in produceRequest.AppendTo (before the batch is written) and true only at batch creation and in handleReqRespBatch; unsureIfProduced is only ever stored the constant true (sticky); " +
 			"(4) ordered response handling: handleSeqResps is started only with go under first==true of the seqResps push, handleReqResp is reached only through the promise given to doSequenced, handleReqRespBatch ignores any batch that is not its owner's first batch before touching state, finishBatch pops exactly the head batch and advances batch0Seq by its record count; " +
 			"(5) one-in-flight gate: createReq's skip condition reads failing, batchDrainIdx, inflightOnSink, inflight and okOnSink; okOnSink = true is stored only in handleReqRespBatch under batch.owner.sink == s on the success arm; " +
 			"(6) epoch re-check: in sink.produce the request is issued only after the loaded producer id/epoch/err were compared with the request's, and the mismatch arm undoes the staged batches and returns; " +
-			"(7) a batch that has been added to a request is frozen (frozen = true before addBatch) and tryBuffer never appends to a frozen batch.",
-		NotDecided: "absence of duplicates/reordering under arbitrary fault sequences (needs a broker model); the broker side.",
+			"(7) a batch that has been added to a request is frozen (frozen = true before addBatch) and tryBuffer never appends to a frozen batch; " +
+			"(8) the drain index moves only together with its sequence field (c02_round4.go), keeping seq == batch0Seq + records of the drained batches: every type-resolved write to recBuf.batchDrainIdx is ++ executed together with seq = incrementSequence(seq, n) on the same buffer (drain), -- together with batch0Seq = incrementSequence(batch0Seq, n) (head batch finished), or the constant 0 together with seq = batch0Seq (retry rewind; or with seq = 0 and batch0Seq = 0) - 'together' = same basic block, or one dominates the other and no exit is reachable in between; conversely every seq = batch0Seq store is together with batchDrainIdx = 0. A rewind of the index alone (e.g. the moved-sink retry arm) would re-send the head batch under the next sequence number and a leader that already appended it appends it again.",
+		NotDecided: "absence of duplicates/reordering under arbitrary fault sequences (needs a broker model); the broker side; that resetBatchDrainIdx (or failAllRecords) is actually called on every retry path (C01 retry rule); the paired-store rule compares receivers textually (recBuf / batch.owner) and does not prove that nothing else runs between the two stores of a pair beyond their being executed together under recBuf.mu.",
 		Run:        runC02,
 	})
 }
@@ -38,6 +39,7 @@ func runC02(c *Ctx) {
 	c02epoch(c, m)
 	c02frozen(c, m)
 	c02inflight(c, m)
+	c02drainIdx(c, m) // c02_round4.go
 }
 
 // c02inflight: an idempotent producer never has more unanswered produce
